@@ -709,10 +709,36 @@ pub fn write_seed_replay(property: &str, scn: &dyn Scenario, verif_seed: u64, ru
     path
 }
 
+/// `a2lsim abort-replay <property> <scenario idx> <run> <tier> <status>`: called by the check script after the process
+/// ended abnormally (stack overflow, allocation failure, abort) while executing the named run
+pub fn write_abort_replay(all: &[CheckSpec], property: &str, si: usize, run: u64, tier: Tier, status: &str) -> i32 {
+    let verif_seed = env_u64("VERIF_SEED", 1);
+    let Some(spec) = all.iter().find(|c| c.property == property) else { return 2 };
+    let Some(plan) = spec.plans.get(si) else { return 2 };
+    let scn = plan.scenario.as_ref();
+    let v = Violation { oracle: "termination".into(), class: "process-abort".into(), detail: format!("the process ended abnormally ({status}) while executing this run: stack overflow, allocation failure or abort inside the library"), triggers: BTreeSet::new() };
+    let dir = format!("{}/replays", verif_root());
+    let _ = std::fs::create_dir_all(&dir);
+    let path = format!("{dir}/{property}-{}-s{verif_seed}-r{run}-abort.json", scn.name());
+    let doc = json!({
+        "property": property, "scenario": scn.name(), "verif_seed": verif_seed, "run": run, "tier": tier.name(),
+        "violation": { "oracle": v.oracle, "class": v.class, "detail": v.detail, "triggers": v.triggers },
+        "replay_from_seed": run_seed(verif_seed, property, scn.name(), run),
+        "process_abort": true,
+        "rendered": ["the process died in this run; replay re-executes it from its seed in a child process"],
+    });
+    if std::fs::write(&path, serde_json::to_string_pretty(&doc).unwrap()).is_err() {
+        return 2;
+    }
+    println!("violation: scenario={} run={run} oracle={} class={}\n  {}", scn.name(), v.oracle, v.class, v.detail);
+    println!("VIOLATION property={property} replay={path}");
+    1
+}
+
 pub fn run_check(spec: &CheckSpec, tier: Tier) -> i32 {
     let started = Instant::now();
     let verif_seed = env_u64("VERIF_SEED", 1);
-    let workers = env_u64("VERIF_WORKERS", 16).max(1) as usize;
+    let workers = if std::env::var("VERIF_TRACE_FILE").is_ok() { 1 } else { env_u64("VERIF_WORKERS", 16).max(1) as usize };
     let scale_pct = env_u64("VERIF_RUNS_PCT", 100);
     println!("a2lsim check property={} tier={} VERIF_SEED={} workers={}", spec.property, tier.name(), verif_seed, workers);
 
@@ -755,6 +781,10 @@ pub fn run_check(spec: &CheckSpec, tier: Tier) -> i32 {
 
     // wall-clock watchdog: a backstop for loops that pass no fuel tick (e.g. in the writer). It never decides
     // anything about a run that finishes; a run that is still executing after WATCHDOG_SECS is reported and ends the check.
+    // VERIF_TRACE_FILE (used by the check script after an abnormal process end): the id of the run that is about
+    // to start is written to this file, so that the run that kills the process can be named
+    let trace_file: Option<Mutex<std::fs::File>> = std::env::var("VERIF_TRACE_FILE").ok().and_then(|p| std::fs::File::create(p).ok()).map(Mutex::new);
+    let trace_file = &trace_file;
     let slots: Vec<(AtomicU64, AtomicU64)> = (0..workers).map(|_| (AtomicU64::new(0), AtomicU64::new(u64::MAX))).collect();
     let finished = std::sync::atomic::AtomicBool::new(false);
     let watchdog_secs = env_u64("VERIF_WATCHDOG_SECS", WATCHDOG_SECS);
@@ -797,6 +827,12 @@ pub fn run_check(spec: &CheckSpec, tier: Tier) -> i32 {
                     let scn = spec.plans[si].scenario.as_ref();
                     for ri in first..first + cnt {
                         let seed = run_seed(verif_seed, spec.property, scn.name(), ri);
+                        if let Some(tf) = trace_file.as_ref() {
+                            use std::io::{Seek, SeekFrom, Write};
+                            let mut f = tf.lock().unwrap();
+                            let _ = f.seek(SeekFrom::Start(0));
+                            let _ = f.write_all(format!("{si:>6} {ri:>20}\n").as_bytes());
+                        }
                         slots[wi].0.store(started.elapsed().as_secs(), Ordering::Relaxed);
                         slots[wi].1.store(((si as u64) << 48) | ri, Ordering::Relaxed);
                         let r = exec_run(scn, Tape::from_seed(seed), tier, false);
@@ -1038,6 +1074,32 @@ pub fn replay_file(path: &str, all: &[CheckSpec]) -> i32 {
         eprintln!("HARNESS ERROR: unknown property/scenario {property}/{scenario}");
         return 2;
     };
+    if v.get("process_abort").and_then(Value::as_bool) == Some(true) {
+        // re-execute the run in a child process and look at how it ends
+        let run = v["run"].as_u64().unwrap_or(0);
+        let exe = std::env::current_exe().expect("current exe");
+        let status = std::process::Command::new(exe)
+            .args(["one", property, scenario, tier.name(), &run.to_string()])
+            .env("VERIF_SEED", v["verif_seed"].as_u64().unwrap_or(1).to_string())
+            .stdout(std::process::Stdio::null())
+            .stderr(std::process::Stdio::null())
+            .status();
+        return match status {
+            Ok(st) if matches!(st.code(), Some(0 | 1 | 2)) => {
+                println!("not reproduced: the run ends normally now (exit {:?})", st.code());
+                i32::from(st.code() == Some(1))
+            }
+            Ok(st) => {
+                println!("reproduced: the child process ended abnormally ({st})");
+                println!("VIOLATION property={property} replay={path}");
+                1
+            }
+            Err(e) => {
+                eprintln!("HARNESS ERROR: cannot start child process: {e}");
+                2
+            }
+        };
+    }
     if let Some(seed) = v.get("replay_from_seed").and_then(Value::as_u64) {
         // a run that hung: execute it from its seed in a helper thread and wait for the watchdog time
         let limit = env_u64("VERIF_WATCHDOG_SECS", WATCHDOG_SECS);
